@@ -132,6 +132,16 @@ def old():
     return "old"
 def loads_own_path():
     return ('f2', dds.load('/p'))
+VAR = 1
+def prod2():
+    return ('p2', VAR)
+def g2(x):
+    return ('g2', x)
+def inline_load():
+    return dds.keep('/q2', g2, dds.load('/p2'))
+def assigned_load():
+    y = dds.load('/p2')
+    return dds.keep('/q3', g2, y)
 '''
 RAW_RUN = '''import dds, sys, json
 dds.accept_module("rawpk9")
@@ -147,6 +157,15 @@ for name, thunk in (("byname-producer", lambda: dds.eval(m.mentions_but_never_ca
         out[name] = "dds:" + (e.error_code.name if getattr(e, "error_code", None) is not None else "NONE")
     except BaseException as e:
         out[name] = "exc:" + type(e).__name__
+# a load written directly as an argument of a keep, the loaded path re-produced with another value in between
+for v in (1, 2):
+    m.VAR = v
+    dds.keep('/p2', m.prod2)
+    for name, fn in (("inline-load", m.inline_load), ("assigned-load", m.assigned_load)):
+        try:
+            out[f"{name}:{v}"] = "ok:" + repr(dds.eval(fn))
+        except BaseException as e:
+            out[f"{name}:{v}"] = "exc:" + type(e).__name__
 print("@@" + json.dumps(out))
 '''
 
@@ -176,6 +195,12 @@ def run_raw(rep):
             if not res[name].startswith("dds:"):
                 rep.violation("read-before-produce:silently-returned:" + name, f"{name}: the evaluation reads a path that nothing has produced yet and "
                               f"returns {res[name][:60]} instead of being rejected with a DDS error", {"module": RAW_MOD, "results": res})
+        for name, key in (("inline-load", "read-stale:inline-load-in-keep-argument"), ("assigned-load", "read-stale:load-assigned-then-passed-to-keep")):
+            rep.case("raw:" + name)
+            want = "ok:" + repr(("g2", ("p2", 2)))
+            if res.get(name + ":2") != want:
+                rep.violation(key, f"{name}: after /p2 was produced again with another value, the keep that receives dds.load('/p2') returned "
+                              f"{res.get(name + ':2')} instead of {want}", {"module": RAW_MOD, "results": res})
     finally:
         shutil.rmtree(base, ignore_errors=True)
 
